@@ -25,7 +25,8 @@ EXPLANATION = (
     "for writer and parsers; (U5) set_vring_addr reaches the ioctl only under is_valid = true, and every "
     "accepting path of both is_valid implementations tests size != 0, size <= max, power of two and the "
     "log-address rule."
-    ' Also: (U4) the acknowledged backend features are stored only after the ioctl succeeded and are the value passed to it; (U2) `ioctl_result(ret, ..)?; ...; Ok(v)` accepted as the same result.')
+    ' Also: (U4) the acknowledged backend features are stored only after the ioctl succeeded and are the value passed to it; (U2) `ioctl_result(ret, ..)?; ...; Ok(v)` accepted as the same result.'
+    " Round 4/5: (U5) the three ring ranges are required on every accepting path of the default validator with lengths evaluated against the virtio layout; (U6) exactly 1 ..= VHOST_MAX_MEMORY_REGIONS regions reach the ioctl; (U7) dma_map announces read-only mappings as RO and others as RW; generic argument types of ioctl calls inside an expanded helper are resolved to the caller's value.")
 NOT_DECIDED = "Kernel behaviour; values of guest-memory translation (get_host_address is third-party)."
 
 IOCTL_WRAPPERS = {"ioctl": "none", "ioctl_with_ref": "ref", "ioctl_with_mut_ref": "mut",
@@ -70,6 +71,7 @@ def run(ctx, chk):
     u3_vring_addr(fb, chk)
     u4(fb, chk)
     u5(fb, chk)
+    u6u7(fb, chk)
     n = lambda r: len([i for i in chk.instances if i[0] == r])
     chk.floor("U2", n("U2"), 36)
     chk.floor("U3", n("U3"), 25)
@@ -754,3 +756,81 @@ def _fname(t):
     if t[0] == "param":
         return t[2]
     return None
+
+
+# ---------------------------------------------------------------------------- U6 / U7
+
+def u6u7(fb, chk):
+    chk.rule("U6", "the kernel memory table takes 1 ..= VHOST_MAX_MEMORY_REGIONS regions: exactly that range reaches the ioctl")
+    chk.rule("U7", "vDPA dma_map: a read-only mapping is announced with VHOST_ACCESS_RO, a writable one with VHOST_ACCESS_RW")
+    fs = find_op(fb, "VhostBackend", "set_mem_table")
+    if len(fs) == 1:
+        f = fs[0]
+        m = must_of(fb, f)
+        for bb, t, c in ioctl_sites(f):
+            atoms = m.atoms_at(bb)
+            nonempty = any(a[0] == "false" and a[1][0] == "call" and a[1][1] == "is_empty" for a in atoms) or \
+                any(a[0] == "cmp" and a[1] in ("Ge", "Ne", "Gt") and "len(regions)" in show(a[2]) and const_eval(fb, m.sym, a[3]) in (0, 1) for a in atoms)
+            ub = None
+            for a in atoms:
+                if a[0] == "cmp" and a[1] in ("Le", "Lt") and "len(regions)" in show(a[2]):
+                    k = const_eval(fb, m.sym, a[3])
+                    if k is not None:
+                        k = k if a[1] == "Le" else k - 1
+                        ub = k if ub is None else min(ub, k)
+            want = fb.const_value("vhost::backend::VHOST_MAX_MEMORY_REGIONS") if hasattr(fb, "const_value") else 255
+            chk.check(nonempty and ub == want, "U6", "set_mem_table:region-count", "0 < regions.len() <= %s at the ioctl" % want,
+                      "VhostBackend::set_mem_table issues VHOST_SET_MEM_TABLE for region counts up to %s (non-empty required: %s); the UAPI "
+                      "limit is %s: a legal table is refused or an illegal one passed on" % (ub, nonempty, want), f.loc(t["line"]))
+        # each kernel table entry carries the caller's region values unchanged
+        want_src = {"guest_phys_addr": "guest_phys_addr", "memory_size": "memory_size", "userspace_addr": "userspace_addr"}
+        n_ent = 0
+        for b_ in f.blocks:
+            if b_["cleanup"]:
+                continue
+            for st_ in b_["stmts"]:
+                if st_["k"] == "assign" and st_["rv"]["k"] == "agg" and st_["rv"].get("ak") == "adt" and (st_["rv"].get("adt") or "").endswith("vhost_memory_region"):
+                    n_ent += 1
+                    v_ = m.sym.rvalue(st_["rv"])
+                    for fld, val in v_[3]:
+                        if fld not in want_src:
+                            continue
+                        x = val
+                        while x[0] in ("ref", "deref", "cast"):
+                            x = x[1]
+                        okf = x[0] == "field" and x[2] == want_src[fld] and not any(y[0] == "bin" for y in subterms(val))
+                        chk.check(okf, "U3", "set_mem_table:region:%s" % fld, "%s <- region.%s" % (fld, want_src[fld]),
+                                  "VhostBackend::set_mem_table fills vhost_memory_region.%s from `%s`; the UAPI field carries the caller's "
+                                  "region.%s unchanged" % (fld, show(val)[:70], want_src[fld]), f.loc(st_.get("line")))
+        if n_ent == 0:
+            chk.bad("U3", "set_mem_table:region", "no vhost_memory_region entry is built in set_mem_table", f.loc())
+    else:
+        chk.anchor_missing("U6", "VhostBackend::set_mem_table (kernel)")
+    gs = [x for x in fb.fns.values() if x.name == "dma_map" and "vhost_kern" in x.key and x.crate == "vhost"]
+    for g in gs:
+        gm = must_of(fb, g)
+        for bb, t, c in sites(g, name="send_iotlb_msg"):
+            msg = gm.sym.arg_terms(bb)[1]
+            perm = None
+            for s_ in subterms(msg):
+                if s_[0] == "agg" and s_[1].endswith("VhostIotlbMsg"):
+                    perm = dict(s_[3]).get("perm")
+            good = False
+            detail = show(perm)[:80] if perm else None
+            if perm is not None and perm[0] == "phi" and len(perm) >= 4:
+                mp = {}
+                for alt, db in zip(perm[2], perm[3]):
+                    if alt[0] != "agg" or not isinstance(db, int):
+                        continue
+                    for a in gm.atoms_at(db):
+                        if a[0] in ("true", "false") and a[1][0] == "param" and a[1][2] == "readonly":
+                            mp[a[0] == "true"] = alt[2]
+                        if a[0] == "in" and a[1][0] == "param" and a[1][2] == "readonly" and len(a[2]) == 1:
+                            mp[bool(next(iter(a[2]))) != bool(a[3])] = alt[2]
+                good = mp == {True: "ReadOnly", False: "ReadWrite"}
+                detail = str(mp)
+            chk.check(good, "U7", "dma_map:perm", "readonly -> ReadOnly, otherwise ReadWrite",
+                      "VhostKernVdpa::dma_map announces the mapping with perm %s (readonly must give VHOST_ACCESS_RO, writable VHOST_ACCESS_RW)"
+                      % detail, g.loc(t["line"]))
+    if not gs:
+        chk.anchor_missing("U7", "VhostKernVdpa::dma_map")
